@@ -45,10 +45,11 @@ ASSUMPTIONS = [
     'blocks are the payload in order and content-length is its size',
     'the compressed path is <non-empty basename>.lzma (os.path.splitext gives (.., ".lzma"))',
     'one process at a time uses the cache directory (the code has a TODO about concurrent downloads)',
+    'honest_valid: validate_file (size + sha256) accepts only the complete converted split file',
 ]
-PARTIAL = ['cifar100.load_split builds federated_cifar100_<split>.sqlite in place under its final name; this file is '
-           'neither downloaded nor decompressed and is outside the statement -- see the final report / proposed finding']
-CASE_TIMEOUT = 120
+PARTIAL = ['cifar100.load_split: download, validation and decompression of the real 153 MB TFF file are stubbed; the '
+           'conversion runs for real on a 3-client fake TFF iterator and validate_file is replaced by a content check']
+CASE_TIMEOUT = 300
 
 BS = 1 << 18                      # the property's "transfer block size" (generation hint only)
 URL = 'https://example.invalid/some/dir/data.lzma'
@@ -359,35 +360,67 @@ def _run_attempts(case, faults):
 
 
 # --------------------------------------------------------------------------
-# cifar100.load_split's own cache file (federated_cifar100_<split>.sqlite).  It is
-# converted, not downloaded or decompressed, so by the wording of C19 it is outside the
-# statement; generate() does not emit this kind.  It is kept runnable so that
-# `./check C19 --replay known_findings_proposed/C19-cifar-replay.json` reproduces the
-# finding described in known_findings_proposed/C19.json.
+# cifar100.load_split's own cache file federated_cifar100_<split>.sqlite (converted from the
+# decompressed TFF database).  Download / validation of the TFF file / decompression are stubbed
+# (153 MB, pinned digests); the conversion runs for real on a 3-client fake TFF iterator:
+# SQLiteFederatedDataBuilder writes a real SQLite file.  Faults: ['cerr', j] the iterator raises
+# at client j | ['short'] it silently yields one client too few (only validate_file can notice)
+# | ['crash', k, 0, 0] | None | ['forbidden'] (the converter must not be touched).
 
-def _run_cifar(case):
+SPLIT_TOTAL = 3
+
+
+def _split_ids(n=SPLIT_TOTAL):
+  return [b'c%d' % i for i in range(n)]
+
+
+def _db_state(path):
+  """None | ['w', n] the table holds exactly the first n expected clients | ['g', -1] anything else"""
+  import sqlite3
+  if not os.path.exists(path):
+    return None
+  try:
+    con = sqlite3.connect('file:' + path + '?mode=ro', uri=True)
+    try:
+      ids = [r[0] for r in con.execute('SELECT client_id FROM federated_data ORDER BY rowid')]
+    finally:
+      con.close()
+  except Exception:  # pylint: disable=broad-except
+    return ['g', -1]
+  return ['w', len(ids)] if ids == _split_ids(len(ids)) and len(ids) <= SPLIT_TOTAL else ['g', -1]
+
+
+def _split_attempt(case, root, fault):
   import numpy as np
   from fedjax.datasets import cifar100
   from fedjax.datasets import downloads as dl
   from fedjax.core import sqlite_federated_data as sfd
-  split, stop_after, total = case['split'], case['stop_after'], 3
-  base = tempfile.mkdtemp(prefix='C19-cifar-')
-  saved = (dl.maybe_download, dl.maybe_lzma_decompress, dl.validate_file, dl.log, sfd.TFFSQLiteClientsIterator)
-  state = {'fail': True}
+  split = case['split']
+  crash = fault[1:] if fault and fault[0] == 'crash' else None
+  rec = crashfs.Recorder(*(crash if crash else (None, 0, 0)))
+  env = _Env(root, rec, b'', fault)
+  final = f'federated_cifar100_{split}.sqlite'
+  saved = (dl.maybe_download, dl.maybe_lzma_decompress, dl.validate_file, dl.log, sfd.TFFSQLiteClientsIterator,
+           sfd.SQLiteFederatedDataBuilder, cifar100.os)
+  real_builder = sfd.SQLiteFederatedDataBuilder
+  total = SPLIT_TOTAL - 1 if fault == ['short'] else SPLIT_TOTAL
 
   class Clients:
 
     def __init__(self, *a):
       self.i = 0
+      env.net_touched = True
 
     def __iter__(self):
       return self
 
     def __next__(self):
-      if self.i >= total:
-        raise StopIteration
-      if state['fail'] and self.i == stop_after:
+      j = self.i
+      rec.effect(('client', j))
+      if fault == ['cerr', j]:
         raise IOError('interrupted while converting (injected)')
+      if j >= total:
+        raise StopIteration
       self.i += 1
 
       class C:
@@ -395,42 +428,88 @@ def _run_cifar(case):
         def all_examples(self):
           return {'image': np.zeros((2, 32, 32, 3), np.uint8), 'label': np.zeros(2, np.int64),
                   'coarse_label': np.zeros(2, np.int64)}
-      return (b'c%d' % self.i, C())
+      return (b'c%d' % j, C())
 
-  out = {'calls': []}
+  class Builder(real_builder):
+
+    def __init__(self, path):
+      env.net_touched = True
+      self._name = env.rel(path)
+      self._path = path
+      rec.effect(('cr', self._name))
+      super().__init__(path)
+
+    def __exit__(self, *a):
+      if rec.dead:                       # the process is gone: the connection dies uncommitted
+        self._connection.close()
+        return False
+      try:
+        rec.effect(('cl', self._name, None))
+      except crashfs.SimCrash:
+        self._connection.close()
+        raise
+      r = super().__exit__(*a)             # the real close: uncommitted rows are rolled back
+      st = _db_state(self._path)
+      rec.trace[-1] = ('cl', self._name, st[1] if st else -1)
+      return r
+
+  def validate(path, nbytes, digest):
+    if path.endswith('.lzma'):
+      return
+    rec.effect(('validate', env.rel(path)))
+    st = _db_state(path)
+    if st != ['w', SPLIT_TOTAL]:
+      raise ValueError(f'Expected file content hash ... but found {st}')
+
+  out = {'fault': fault}
   try:
-    open(os.path.join(base, 'cifar100.sqlite.lzma'), 'wb').close()
-    open(os.path.join(base, 'cifar100.sqlite'), 'wb').close()
     dl.maybe_download = lambda url, cache_dir=None, **k: os.path.join(cache_dir, 'cifar100.sqlite.lzma')
     dl.maybe_lzma_decompress = lambda p: p[:-5]
-    dl.validate_file = lambda *a: None   # the TFF file and its digests are not available offline
+    dl.validate_file = validate
     dl.log = lambda *a, **k: None
     sfd.TFFSQLiteClientsIterator = Clients
-    final = os.path.join(base, f'federated_cifar100_{split}.sqlite')
-    for attempt in range(2):
-      try:
-        fd = cifar100.load_split(split, cache_dir=base)
-        r = {'outcome': 'ret', 'clients': int(fd.num_clients())}
-      except Exception as ex:  # pylint: disable=broad-except
-        r = {'outcome': 'raise:' + type(ex).__name__, 'clients': None}
-      r['final_exists'] = os.path.exists(final)
-      out['calls'].append(r)
-      state['fail'] = False
+    sfd.SQLiteFederatedDataBuilder = Builder
+    cifar100.os = _Os(env)
+    try:
+      fd = cifar100.load_split(split, cache_dir=root)
+      out['outcome'] = 'ret'
+      out['ret_ok'] = int(fd.num_clients()) == SPLIT_TOTAL
+    except crashfs.SimCrash:
+      out['outcome'] = 'crash'
+    except Exception as ex:  # pylint: disable=broad-except
+      out['outcome'] = 'raise:' + type(ex).__name__
   finally:
-    dl.maybe_download, dl.maybe_lzma_decompress, dl.validate_file, dl.log, sfd.TFFSQLiteClientsIterator = saved
-    shutil.rmtree(base, ignore_errors=True)
-  out['total'] = total
+    (dl.maybe_download, dl.maybe_lzma_decompress, dl.validate_file, dl.log, sfd.TFFSQLiteClientsIterator,
+     sfd.SQLiteFederatedDataBuilder, cifar100.os) = saved
+  out['trace'] = [list(e) for e in rec.trace]
+  out['raw_writes'] = {}
+  out['final'] = _db_state(os.path.join(root, final))
+  out['partial'] = _db_state(os.path.join(root, final + '.partial'))
+  out['others'] = [n for n in crashfs.listing(root) if n not in (final, final + '.partial', 'cifar100.sqlite.lzma',
+                                                                  'cifar100.sqlite')]
+  out['net_touched'] = env.net_touched
+  out['read_sizes'] = []
   return out
 
 
-def _oracle_cifar(case, obs):
-  first, second = obs['calls']
-  if first['outcome'] != 'ret' and second['outcome'] == 'ret' and second['clients'] != obs['total']:
-    return [('cifar100-split-sqlite-built-in-place',
-             f'load_split({case["split"]!r}) interrupted after {case["stop_after"]} of {obs["total"]} clients left '
-             f'federated_cifar100_{case["split"]}.sqlite at its final path; the next call reused it without '
-             f'validation and returned {second["clients"]} clients')]
-  return []
+def _split_faults(case):
+  if 'attempts' in case:
+    return [list(f) for f in case['attempts']]
+  return [['cerr', case['stop_after']]]      # the original corpus case
+
+
+def _run_cifar(case, faults=None):
+  import fedjax.datasets.cifar100  # noqa: F401  pylint: disable=unused-import
+  base = tempfile.mkdtemp(prefix='C19-cifar-')
+  outs = []
+  try:
+    open(os.path.join(base, 'cifar100.sqlite.lzma'), 'wb').close()
+    open(os.path.join(base, 'cifar100.sqlite'), 'wb').close()
+    for f in (faults if faults is not None else _split_faults(case) + [None, ['forbidden']]):
+      outs.append(_split_attempt(case, base, f))
+  finally:
+    shutil.rmtree(base, ignore_errors=True)
+  return {'attempts': outs, 'size': SPLIT_TOTAL}
 
 
 def run(case):
@@ -443,42 +522,46 @@ def run(case):
 # --------------------------------------------------------------------------
 
 def oracle(case, obs):
-  if case['kind'] == 'cifar_split':
-    return _oracle_cifar(case, obs)
   out = []
-  n = case['size']
-  kind = case['kind']
+  n = obs['size']
+  kind = 'split' if case['kind'] == 'cifar_split' else case['kind']
+  unit = 'clients' if kind == 'split' else 'bytes'
   att = obs['attempts']
   for i, a in enumerate(att):
     if a['final'] is not None and a['final'] != ['w', n]:
       # byte comparison with the payload: 'w' = a strict prefix of it, 'g' = not even a prefix
       key = f'{kind}-final-truncated' if a['final'][0] == 'w' else f'{kind}-final-corrupt'
       out.append((key, f'attempt {i} ({a["fault"]}, outcome {a["outcome"]}): the final cache path exists with '
-                  f'{a["final"][1]} bytes ({"a strict prefix of" if a["final"][0] == "w" else "NOT a prefix of"} '
-                  f'the {n}-byte payload)'))
+                  f'{a["final"][1]} {unit} ({"a strict prefix of" if a["final"][0] == "w" else "NOT a prefix of"} '
+                  f'the {n} {unit} of the complete content)'))
       break
   ok = att[-2]
   if not (ok['outcome'] == 'ret' and ok.get('ret_ok') and ok['final'] == ['w', n]):
     out.append((f'{kind}-retry-does-not-repair',
-                f'after {case["attempts"]} a fault-free call gave outcome {ok["outcome"]}, final file {ok["final"]}'))
+                f'after {case.get("attempts", case.get("stop_after"))} a fault-free call gave outcome {ok["outcome"]}, final file {ok["final"]}'))
   re = att[-1]
   if not (re['outcome'] == 'ret' and re.get('ret_ok') and re['final'] == ['w', n] and not re['net_touched']):
     out.append((f'{kind}-cache-not-reused',
                 f'with a complete cached file the call gave {re["outcome"]}, touched the '
-                f'{"network" if kind == "download" else "decompressor"}: {re["net_touched"]}'))
+                f'{dict(download="network", decompress="decompressor", split="converter")[kind]}: {re["net_touched"]}'))
   return out
 
 
 # --------------------------------------------------------------------------
 
-def _oev(e, kind):
-  final = FINAL[kind]
+def _oev(e, final):
   part = final + '.partial'
   k = e[0]
   if k == 'mk':
     return 'OMk' if e[1] == '' else 'OBad'
   if k == 'ex':
-    return 'OEx true' if e[1] == final else 'OBad'
+    return 'OEx true' if e[1] == final else 'OEx false' if e[1] == part else 'OBad'
+  if k == 'rm':
+    return 'ORm' if e[1] == part else 'OBad'
+  if k == 'client':
+    return f'OClient {e[1]}%nat'
+  if k == 'validate':
+    return 'OValidate' if e[1] == part else 'OBad'
   if k == 'cr':
     return 'OCr true' if e[1] == part else 'OBad'
   if k == 'wr':
@@ -512,9 +595,27 @@ def _optlist(xs):
   return '[' + '; '.join('None' if x is None else f'Some {fw.zlit(x)}' for x in xs) + ']'
 
 
+def _encode_split(case, obs):
+  final = f'federated_cifar100_{case["split"]}.sqlite'
+  calls, ocalls = [], []
+  for a in obs['attempts']:
+    f = a['fault']
+    clients = [1] * SPLIT_TOTAL
+    if f and f[0] == 'cerr':
+      clients = clients[:f[1]] + [None]
+    elif f == ['short']:
+      clients = clients[:-1]
+    crash = f'(Some {f[1]}%nat)' if f and f[0] == 'crash' else 'None'
+    calls.append(f'(KConvert {_optlist(clients)} {fw.zlist([1] * SPLIT_TOTAL)}, {crash})')
+    code = {'ret': 0, 'crash': 2}.get(a['outcome'], 1)
+    ocalls.append(f'(mkOCall {fw.clist([_oev(e, final) for e in a["trace"]])} {code} {_ofile(a["final"])} '
+                  f'{_ofile(a["partial"])})')
+  return f'(mkC19 {fw.clist(calls)}, mkO19 {fw.clist(ocalls)})'
+
+
 def encode(case, obs):
   if case['kind'] == 'cifar_split':
-    return None
+    return _encode_split(case, obs)
   att = obs['attempts']
   kind = case['kind']
   good = att[-2]
@@ -561,7 +662,7 @@ def encode(case, obs):
       crash = f'(Some {f[1]}%nat)'
     calls.append(f'({c}, {crash})')
     code = {'ret': 0, 'crash': 2}.get(a['outcome'], 1)
-    ocalls.append(f'(mkOCall {fw.clist([_oev(e, kind) for e in a["trace"]])} {code} {_ofile(a["final"])} '
+    ocalls.append(f'(mkOCall {fw.clist([_oev(e, FINAL[kind]) for e in a["trace"]])} {code} {_ofile(a["final"])} '
                   f'{_ofile(a["partial"])})')
   return f'(mkC19 {fw.clist(calls)}, mkO19 {fw.clist(ocalls)})'
 
@@ -626,6 +727,17 @@ def generate(tier, rng):
         hist.append(rng.choice(_single_faults(case, True, i)))
         yield {**case, 'attempts': list(hist)}
     return
+  for split in ('train', 'test'):
+    case = {'kind': 'cifar_split', 'split': split, 'attempts': []}
+    yield case
+    tr = _run_cifar(case, [None])['attempts'][-1]['trace']
+    singles = [['cerr', j] for j in range(SPLIT_TOTAL + 1)] + [['short']] + [['crash', k, 0, 0] for k in range(len(tr) + 1)]
+    for f in singles:
+      yield {**case, 'attempts': [f]}
+    for f in singles:                         # twice: the retry finds the stale .partial of the first
+      yield {**case, 'attempts': [f, f]}
+    for _ in range(30 if full else 8):
+      yield {**case, 'attempts': [rng.choice(singles) for _ in range(rng.randrange(2, 5))]}
   for kind in ('download', 'decompress'):
     for i, n in enumerate(sizes[kind]):
       case = {'kind': kind, 'size': n, 'attempts': []}
@@ -644,14 +756,14 @@ def generate(tier, rng):
 
 
 def nontrivial(case, obs):
-  if case['kind'] == 'cifar_split':
-    return True
   return any(a['outcome'] != 'ret' for a in obs['attempts'])
 
 
 def describe(case, obs):
   if case['kind'] == 'cifar_split':
-    return {'kind': 'cifar_split'}
+    fs = _split_faults(case)
+    return {'kind': 'cifar_split', 'interruptions': len(fs), 'faults': '+'.join(sorted({f[0] for f in fs})) or '-',
+            'outcomes': '+'.join(sorted({a['outcome'].split(':')[0] for a in obs['attempts']}))}
   b = BS if case['kind'] == 'download' else 64 * 1024
   n = case['size']
   cls = 'empty' if n == 0 else 'lt-block' if n < b else 'eq-block' if n == b else 'multiple' if n % b == 0 else 'several'
@@ -662,6 +774,9 @@ def describe(case, obs):
 
 def shrink(case):
   if case['kind'] == 'cifar_split':
+    fs = _split_faults(case)
+    for j in range(len(fs)) if len(fs) > 1 else []:
+      yield {'kind': 'cifar_split', 'split': case['split'], 'attempts': fs[:j] + fs[j + 1:]}
     return
   if len(case['attempts']) > 1:
     for j in range(len(case['attempts'])):
